@@ -1,2 +1,285 @@
-"""Further matrix families (filled in incrementally)."""
-EXTRA_FAMILIES = {}
+"""Further matrix families: bounded integers over a table of ranges (all three div_rem algorithms,
+negative and boundary-straddling ranges, casts), plumbing (enum / struct / array / box / snapshot),
+gas, hashes (uninterpreted)."""
+import z3
+
+from matrix import (Entry, P, R128, UNIT, i_, none, ok, panic, short, some, vbool, vint, vtuple,
+                    vu256)
+
+
+def bi(lo, hi):
+    return f"BoundedInt<{lo}, {hi}>"
+
+
+def variant(idx, v, n=2):
+    return ("enum", idx, idx, {idx: v}, list(range(n)))
+
+
+BI_HEADER = """#[feature("bounded-int-utils")]
+use core::internal::bounded_int::{
+    self, AddHelper, SubHelper, MulHelper, DivRemHelper, ConstrainHelper, TrimMinHelper,
+    TrimMaxHelper, BoundedInt, UnitInt, upcast, downcast,
+};
+#[feature("bounded-int-utils")]
+use core::internal::OptionRev;
+"""
+
+RANGES = [
+    (0, 1), (0, 255), (-128, 127), (-5, 5), (100, 200), (7, 7), (-1, -1),
+    (0, 2**64 - 1), (-2**63, 2**63 - 1), (0, 2**128 - 1), (-2**127, 2**127 - 1),
+    (2**128, 2**128 + 10), (-2**128 - 3, -2**128 + 3), (0, 2**200),
+    (-(2**250), 2**250), (1, 2**128),
+]
+
+
+class BEntry(Entry):
+    """Entry with extra top-level items (helper impls)."""
+
+    def __init__(self, name, params, ret, body, spec=None, tags=(), items=""):
+        super().__init__(name, params, ret, body, spec, tags)
+        self.items = items
+
+    def source(self):
+        return self.items + super().source()
+
+
+def bounded_entries():
+    E = []
+    k = 0
+    pairs = [((0, 255), (0, 255)), ((-128, 127), (-128, 127)), ((-5, 5), (100, 200)),
+             ((0, 2**128 - 1), (0, 2**128 - 1)), ((-2**127, 2**127 - 1), (-2, -1)),
+             ((0, 2**64 - 1), (7, 7)), ((2**128, 2**128 + 10), (-5, 5)),
+             ((-2**128 - 3, -2**128 + 3), (0, 1)), ((0, 1), (0, 3))]
+    for (a, b), (c, d) in pairs:
+        k += 1
+        ta, tb = bi(a, b), bi(c, d)
+        two = [("x", ta), ("y", tb)]
+        E.append(BEntry(f"bi_add_{k}", two, bi(a + c, b + d), "bounded_int::add(x, y)",
+                        lambda x, y: [(True, ok(vint(i_(x) + i_(y))))], tags=("bounded",),
+                        items=f"impl BA{k} of AddHelper<{ta}, {tb}> {{ type Result = {bi(a + c, b + d)}; }}\n"))
+        E.append(BEntry(f"bi_sub_{k}", two, bi(a - d, b - c), "bounded_int::sub(x, y)",
+                        lambda x, y: [(True, ok(vint(i_(x) - i_(y))))], tags=("bounded",),
+                        items=f"impl BS{k} of SubHelper<{ta}, {tb}> {{ type Result = {bi(a - d, b - c)}; }}\n"))
+        prods = [a * c, a * d, b * c, b * d]
+        if max(prods) - min(prods) < P // 2 and abs(max(prods)) < P // 2 and abs(min(prods)) < P // 2:
+            E.append(BEntry(f"bi_mul_{k}", two, bi(min(prods), max(prods)), "bounded_int::mul(x, y)",
+                            lambda x, y: [(True, ok(vint(i_(x) * i_(y))))],
+                            tags=("bounded", "nonlinear"),
+                            items=f"impl BM{k} of MulHelper<{ta}, {tb}> {{ type Result = {bi(min(prods), max(prods))}; }}\n"))
+    # div_rem: the three algorithms
+    divs = [((128, 255), (3, 8)), ((0, 2**128 - 1), (1, 2**128 - 1)),
+            ((0, 2**200), (2**123 + 5, 2**128)), ((0, 2**64 - 1), (1, 2**64 - 1)),
+            ((0, 10), (1, 1)), ((5, 2**128 - 1), (2**64, 2**65)),
+            ((0, 2**245), (2**125, 2**128))]
+    for j, ((a, b), (c, d)) in enumerate(divs):
+        ta, tb = bi(a, b), bi(c, d)
+        qt, rt = bi(a // d, b // c), bi(0, d - 1)
+        E.append(BEntry(f"bi_div_rem_{j}", [("x", ta), ("y", f"NonZero<{tb}>")], f"({qt}, {rt})",
+                        "bounded_int::div_rem(x, y)",
+                        lambda x, y: [(True, ok(vtuple(vint(i_(x) / i_(y)), vint(i_(x) % i_(y)))))],
+                        tags=("bounded", "nonlinear"),
+                        items=f"impl BD{j} of DivRemHelper<{ta}, {tb}> {{ type DivT = {qt}; type RemT = {rt}; }}\n"))
+    # constrain at a boundary
+    cons = [((-128, 127), 0), ((0, 255), 100), ((-5, 5), -4), ((0, 2**128 - 1), 2**127),
+            ((-2**127, 2**127 - 1), -2**126), ((2**128, 2**128 + 10), 2**128 + 1),
+            ((2**128, 2**129 - 1), 2**128 + 2**127), ((-2**127, 2**127), 5)]
+    for j, ((a, b), bd) in enumerate(cons):
+        ta = bi(a, b)
+        lt, ht = bi(a, bd - 1), bi(bd, b)
+
+        def cspec(x, bd=bd):
+            e = i_(x)
+            return [(e < bd, ok(variant(0, vint(e)))), (e >= bd, ok(variant(1, vint(e))))]
+        E.append(BEntry(f"bi_constrain_{j}", [("x", ta)], f"Result<{lt}, {ht}>",
+                        f"bounded_int::constrain::<{ta}, {bd}>(x)", cspec, tags=("bounded",),
+                        items=f"impl BC{j} of ConstrainHelper<{ta}, {bd}> {{ type LowT = {lt}; type HighT = {ht}; }}\n"))
+    # trim
+    for j, (a, b) in enumerate([(0, 255), (-128, 127), (-5, 5), (0, 2**128 - 1), (-2**127, 2**127 - 1),
+                                (2**128, 2**128 + 10), (0, 2**200)]):
+        ta = bi(a, b)
+
+        def tmin(x, a=a):
+            e = i_(x)
+            return [(e == a, ok(variant(0, UNIT))), (e != a, ok(variant(1, vint(e))))]
+
+        def tmax(x, b=b):
+            e = i_(x)
+            return [(e == b, ok(variant(0, UNIT))), (e != b, ok(variant(1, vint(e))))]
+        E.append(BEntry(f"bi_trim_min_{j}", [("x", ta)], f"OptionRev<{bi(a + 1, b)}>",
+                        "bounded_int::trim_min(x)", tmin, tags=("bounded",),
+                        items=f"impl BTN{j} of TrimMinHelper<{ta}> {{ type Target = {bi(a + 1, b)}; }}\n"))
+        E.append(BEntry(f"bi_trim_max_{j}", [("x", ta)], f"OptionRev<{bi(a, b - 1)}>",
+                        "bounded_int::trim_max(x)", tmax, tags=("bounded",),
+                        items=f"impl BTX{j} of TrimMaxHelper<{ta}> {{ type Target = {bi(a, b - 1)}; }}\n"))
+    # casts between ranges and to/from primitive types and felt252
+    casts = [((100, 200), (120, 180)), ((-128, 127), (0, 255)), ((0, 255), (-128, 127)),
+             ((0, 2**128 - 1), (0, 255)), ((-2**127, 2**127 - 1), (0, 2**128 - 1)),
+             ((0, 2**128 - 1), (-2**127, 2**127 - 1)), ((2**128, 2**128 + 10), (2**128 + 3, 2**128 + 5)),
+             ((-2**127, 2**127 - 1), (-5, 5)), ((2**127, 2**128 + 10), (2**128, 2**128 + 5)),
+             ((-2**128 - 3, -2**128 + 3), (-2**128, -2**128 + 1)), ((0, P - 1), (100, 200)),
+             ((0, P - 1), (-128, 127)), ((0, P - 1), (2**128, 2**128 + 10)),
+             ((0, P - 1), (5, 2**100)), ((0, P - 1), (7, 7)),
+             ((0, P - 1), (-2**128 - 3, -2**128 + 3)), ((0, P - 1), (-1, -1))]
+    for j, ((a, b), (c, d)) in enumerate(casts):
+        src = "felt252" if (a, b) == (0, P - 1) else bi(a, b)
+        dst = bi(c, d)
+
+        def dspec(x, c=c, d=d, isfelt=(a, b) == (0, P - 1)):
+            e = i_(x)
+            if isfelt and c < 0:
+                # felt252 is read as a signed value: [P + c, P) denote the negatives
+                # (observed: downcast::<felt252, BoundedInt<-128, 127>>(-1) == Some(-1))
+                lo_pos = max(c, 0)
+                cases = []
+                if d >= 0:
+                    cases.append((z3.And(e >= lo_pos, e <= d), ok(some(vint(e)))))
+                neg_hi = min(d, -1)
+                cases.append((z3.And(e >= P + c, e <= P + neg_hi), ok(some(vint(e - P)))))
+                inr = z3.Or(*([z3.And(e >= lo_pos, e <= d)] if d >= 0 else []),
+                            z3.And(e >= P + c, e <= P + neg_hi))
+                cases.append((z3.Not(inr), ok(none())))
+                return cases
+            return [(z3.And(e >= c, e <= d), ok(some(vint(e)))),
+                    (z3.Or(e < c, e > d), ok(none()))]
+        E.append(BEntry(f"bi_downcast_{j}", [("x", src)], f"Option<{dst}>", "downcast(x)", dspec,
+                        tags=("bounded", "cast")))
+    ups = [((120, 180), (100, 200)), ((0, 255), (-300, 300)), ((-5, 5), (-2**127, 2**127 - 1)),
+           ((2**128, 2**128 + 10), (0, 2**200))]
+    for j, ((a, b), (c, d)) in enumerate(ups):
+        E.append(BEntry(f"bi_upcast_{j}", [("x", bi(a, b))], bi(c, d), "upcast(x)",
+                        lambda x: [(True, ok(vint(i_(x))))], tags=("bounded", "cast")))
+    for j, (a, b) in enumerate([(-5, 5), (2**128, 2**128 + 10), (-(2**250), 2**250)]):
+        E.append(BEntry(f"bi_to_felt_{j}", [("x", bi(a, b))], "felt252", "upcast(x)",
+                        lambda x: [(True, ok(vint(z3.If(i_(x) < 0, i_(x) + P, i_(x)))))],
+                        tags=("bounded", "cast")))
+    return E
+
+
+PLUMB_HEADER = """#[derive(Copy, Drop)]
+struct Pair { a: u8, b: u128 }
+#[derive(Copy, Drop)]
+enum Three { A: u8, B: (u16, u16), C }
+#[derive(Copy, Drop)]
+enum Five { A, B, C, D, E }
+"""
+
+
+def plumbing_entries():
+    E = []
+
+    def opt(v):
+        # input Option<u8> value -> (is_some cond, payload)
+        _, idx, sel, d, sels = v
+        return idx, d
+    E.append(BEntry("opt_unwrap_or", [("a", "Option<u8>"), ("b", "u8")], "u8",
+                    "match a { Some(x) => x, None => b }",
+                    lambda a, b: [(True, ok(a[3][0] if a[1] == 0 else b))], tags=("plumb",)))
+    E.append(BEntry("opt_is_some", [("a", "Option<u128>")], "bool", "a.is_some()",
+                    lambda a: [(True, ok(vbool(a[1] == 0)))], tags=("plumb",)))
+    E.append(BEntry("pair_swap", [("p", "Pair")], "(u128, u8)", "(p.b, p.a)",
+                    lambda p: [(True, ok(vtuple(p[1][1], p[1][0])))], tags=("plumb",)))
+    E.append(BEntry("three_tag", [("t", "Three")], "felt252",
+                    "match t { Three::A(x) => x.into(), Three::B((x, y)) => x.into() + y.into(), "
+                    "Three::C => 1000 }",
+                    lambda t: [(True, ok(vint(
+                        i_(t[3][0]) if t[1] == 0 else
+                        (i_(t[3][1][1][0]) + i_(t[3][1][1][1])) if t[1] == 1 else 1000)))],
+                    tags=("plumb",)))
+    E.append(BEntry("five_idx", [("t", "Five")], "u8",
+                    "match t { Five::A => 10, Five::B => 11, Five::C => 12, Five::D => 13, "
+                    "Five::E => 14 }", None, tags=("plumb",)))
+    E.append(BEntry("make_three", [("x", "u8"), ("c", "bool")], "Three",
+                    "if c { Three::A(x) } else { Three::C }", None, tags=("plumb",)))
+    E.append(BEntry("arr_build", [("x", "felt252"), ("y", "felt252")], "Array<felt252>",
+                    "let mut a = array![]; a.append(x); a.append(y); a.append(x + y); a",
+                    lambda x, y: [(True, ok(("array", [x, y, vint((i_(x) + i_(y)) % P)])))],
+                    tags=("plumb",)))
+    E.append(BEntry("arr_len", [("a", "Array<u128>")], "usize", "a.len()",
+                    lambda a: [(True, ok(vint(len(a[1]))))], tags=("plumb",)))
+    E.append(BEntry("arr_pop_front", [("a", "Array<u8>")], "Option<u8>",
+                    "let mut a = a; a.pop_front()",
+                    lambda a: [(True, ok(some(a[1][0]) if a[1] else none()))], tags=("plumb",)))
+    E.append(BEntry("arr_get0", [("a", "Array<u64>")], "u64", "*a.at(0)",
+                    lambda a: [(True, ok(a[1][0]) if a[1] else panic(short("Index out of bounds")))],
+                    tags=("plumb",)))
+    E.append(BEntry("arr_get1", [("a", "Array<u64>")], "Option<u64>",
+                    "match a.get(1) { Some(b) => Some(*b.unbox()), None => None }",
+                    lambda a: [(True, ok(some(a[1][1]) if len(a[1]) > 1 else none()))],
+                    tags=("plumb",)))
+    E.append(BEntry("span_first_last", [("a", "Array<u8>")], "felt252",
+                    "let s = a.span(); if s.len() == 0 { 0 } else { (*s.at(0)).into() * 256 + "
+                    "(*s.at(s.len() - 1)).into() }", None, tags=("plumb",)))
+    E.append(BEntry("box_roundtrip", [("x", "u256")], "u256", "BoxTrait::new(x).unbox()",
+                    lambda x: [(True, ok(x))], tags=("plumb",)))
+    E.append(BEntry("nullable_roundtrip", [("x", "u64"), ("c", "bool")], "u64",
+                    "let n: Nullable<u64> = if c { NullableTrait::new(x) } else { Default::default() };"
+                    " match core::nullable::match_nullable(n) { core::nullable::FromNullableResult::Null"
+                    " => 77, core::nullable::FromNullableResult::NotNull(b) => b.unbox() }",
+                    None, tags=("plumb",)))
+    E.append(BEntry("snap_sum", [("p", "Pair")], "felt252",
+                    "let s = @p; (*s.a).into() + (*s.b).into()",
+                    lambda p: [(True, ok(vint(i_(p[1][0]) + i_(p[1][1]))))], tags=("plumb",)))
+    E.append(BEntry("u256_from_parts", [("lo", "u128"), ("hi", "u128")], "u256",
+                    "u256 { low: lo, high: hi }",
+                    lambda lo, hi: [(True, ok(vtuple(lo, hi)))], tags=("plumb",)))
+    E.append(BEntry("result_map", [("r", "Result<u8, u16>")], "u32",
+                    "match r { Ok(x) => x.into() + 1, Err(e) => e.into() + 70000 }", None,
+                    tags=("plumb",)))
+    E.append(BEntry("min_max_u32", [("a", "u32"), ("b", "u32")], "(u32, u32)",
+                    "(core::cmp::min(a, b), core::cmp::max(a, b))",
+                    lambda a, b: [(True, ok(vtuple(vint(z3.If(i_(a) < i_(b), i_(a), i_(b))),
+                                                   vint(z3.If(i_(a) < i_(b), i_(b), i_(a))))))],
+                    tags=("plumb",)))
+    E.append(BEntry("nested_if", [("a", "u8"), ("b", "u8"), ("c", "bool")], "u8",
+                    "if c { if a < b { a } else { b } } else { if a == b { 0 } else { 1 } }", None,
+                    tags=("plumb",)))
+    E.append(BEntry("call_chain", [("a", "u16"), ("b", "u16")], "u16", "helper_add(helper_add(a, b), 1)",
+                    lambda a, b: [(i_(a) + i_(b) + 1 <= 65535, ok(vint(i_(a) + i_(b) + 1))),
+                                  (i_(a) + i_(b) + 1 > 65535, panic(short("u16_add Overflow")))],
+                    tags=("plumb",),
+                    items="#[inline(never)]\nfn helper_add(a: u16, b: u16) -> u16 { a + b }\n"))
+    return E
+
+
+GAS_HEADER = ""
+
+
+def gas_entries():
+    E = []
+    E.append(BEntry("gas_withdraw", [("x", "u8")], "u8",
+                    "match core::gas::withdraw_gas() { Some(_) => x, None => 0 }", None,
+                    tags=("gas",)))
+    E.append(BEntry("gas_withdraw_loop3", [("x", "felt252")], "felt252",
+                    "let mut acc = x; let mut i: u8 = 0; while i != 3 { acc = acc * 2 + 1; i += 1; }; acc",
+                    None, tags=("gas",)))
+    E.append(BEntry("gas_rec", [("n", "felt252")], "felt252", "rec_sum(3, n)", None, tags=("gas",),
+                    items="fn rec_sum(k: felt252, n: felt252) -> felt252 { if k == 0 { n } else { "
+                          "rec_sum(k - 1, n + k) } }\n"))
+    E.append(BEntry("gas_withdraw_all", [("x", "u8")], "u8",
+                    "match core::gas::withdraw_gas_all(core::gas::get_builtin_costs()) { Some(_) => x, "
+                    "None => 0 }", None, tags=("gas",)))
+    return E
+
+
+HASH_HEADER = ""
+
+
+def hash_entries():
+    E = []
+    E.append(BEntry("pedersen2", [("a", "felt252"), ("b", "felt252")], "felt252",
+                    "core::pedersen::pedersen(a, b)", None, tags=("hash",)))
+    E.append(BEntry("poseidon3", [("a", "felt252"), ("b", "felt252"), ("c", "felt252")],
+                    "(felt252, felt252, felt252)", "core::poseidon::hades_permutation(a, b, c)", None,
+                    tags=("hash",)))
+    E.append(BEntry("bitwise_mix", [("a", "u128"), ("b", "u128")], "u128", "(a & b) | (a ^ b)",
+                    lambda a, b: [(True, ok(vint(z3.BV2Int(
+                        z3.Int2BV(i_(a), 128) | z3.Int2BV(i_(b), 128), False))))],
+                    tags=("hash", "bitwise")))
+    return E
+
+
+EXTRA_FAMILIES = {
+    "bounded": bounded_entries, "plumb": plumbing_entries, "gas": gas_entries,
+    "hash": hash_entries,
+}
+EXTRA_HEADERS = {"bounded": BI_HEADER, "plumb": PLUMB_HEADER, "gas": GAS_HEADER, "hash": HASH_HEADER}
